@@ -223,6 +223,48 @@ func main() {
 	return ps
 }
 
+// depthProg: the value reaches `join` along a path with `a` returns (id wrappers) and along a path through `b`
+// out-parameter helpers; after the join, `t` more id wrappers lead to the sink.
+func depthProg(a, b, t int) string {
+	var sb strings.Builder
+	sb.WriteString("package main\n\nfunc source_1() string { return \"t\" }\nfunc sink_1(s string)   {}\nfunc id(s string) string { return s }\nfunc out(s string, o *string) { *o = s }\nfunc join(p, q string) string { return p + q }\n\nfunc main() {\n\tx := source_1()\n")
+	fmt.Fprintf(&sb, "\tp := %s\n", wrap("x", a, "id"))
+	sb.WriteString("\tq0 := x\n")
+	for i := 0; i < b; i++ {
+		fmt.Fprintf(&sb, "\tvar q%d string\n\tout(q%d, &q%d)\n", i+1, i, i+1)
+	}
+	fmt.Fprintf(&sb, "\tz := join(p, q%d)\n\tsink_1(%s)\n}\n", b, wrap("z", t, "id"))
+	return sb.String()
+}
+
+// depthsearch (development aid): look for (program, unsafe-max-depth) pairs with run-to-run differences
+func depthSearch() {
+	work := lib.WorkDir("C06", "depthsearch")
+	for a := 0; a <= 4; a++ {
+		for b := 0; b <= 8; b++ {
+			for t := 0; t <= 0; t++ {
+				d := filepath.Join(work, fmt.Sprintf("a%db%dt%d", a, b, t))
+				os.MkdirAll(d, 0o755)
+				os.WriteFile(filepath.Join(d, "main.go"), []byte(depthProg(a, b, t)), 0o644)
+				os.WriteFile(filepath.Join(d, "go.mod"), []byte("module vprog\n\ngo 1.22\n"), 0o644)
+				os.WriteFile(filepath.Join(d, "config.yaml"), []byte(genConfig), 0o644)
+				p, err := loadSpec("dir:" + d)
+				if err != nil {
+					fmt.Println("load", err)
+					continue
+				}
+				for depth := 3; depth <= 40; depth++ {
+					canon, count, _ := repeat(p, "taint", 16, optrun.Opts{"unsafe-max-depth": strconv.Itoa(depth)})
+					if len(canon) > 1 {
+						fmt.Printf("NONDET a=%d b=%d t=%d depth=%d %v\n", a, b, t, depth, count)
+					}
+				}
+			}
+		}
+	}
+	fmt.Println("depthsearch done")
+}
+
 // explore: which generator features make which analysis unstable (development aid)
 func explore() {
 	names := []string{"assign", "concat", "conv", "field", "ptr", "slice", "map", "mapkey", "box", "closure", "call", "multiret",
@@ -249,6 +291,10 @@ func explore() {
 }
 
 func main() {
+	if len(os.Args) >= 2 && os.Args[1] == "depthsearch" {
+		depthSearch()
+		return
+	}
 	if len(os.Args) >= 2 && os.Args[1] == "explore" {
 		explore()
 		return
@@ -469,6 +515,35 @@ func main() {
 						fmt.Sprintf("taint of %s with unsafe-max-depth=%s gives %d different results on identical inputs: %s", j.name, depth, len(canon), strings.SplitN(diffCanon(canon[hs[0]], canon[hs[1]]), "\n", 2)[0]),
 						[]byte(fmt.Sprintf("program: %s\noption: unsafe-max-depth: %s\n--- difference ---\n%s\n--- A ---\n%s\n--- B ---\n%s\n", j.spec, depth, diffCanon(canon[hs[0]], canon[hs[1]]), canon[hs[0]], canon[hs[1]])), false)
 				}
+			}
+		}
+	}
+	// depth cut-off ties: two paths of equal BFS length but different numbers of returns reach the same node
+	// (found by `depthsearch` against a variant computing the depth from the intermediate return node)
+	for _, ab := range [][2]int{{4, 3}, {3, 2}, {2, 3}} {
+		name := fmt.Sprintf("depth-tie-a%db%d", ab[0], ab[1])
+		d := filepath.Join(work, name)
+		os.MkdirAll(d, 0o755)
+		os.WriteFile(filepath.Join(d, "main.go"), []byte(depthProg(ab[0], ab[1], 0)), 0o644)
+		os.WriteFile(filepath.Join(d, "go.mod"), []byte("module vprog\n\ngo 1.22\n"), 0o644)
+		os.WriteFile(filepath.Join(d, "config.yaml"), []byte(genConfig), 0o644)
+		p, err := loadSpec("dir:" + d)
+		if err != nil {
+			rep.Notes = append(rep.Notes, name+": "+err.Error())
+			continue
+		}
+		lo, hi := 4*ab[0]-2, 4*ab[0]+6
+		if lo < 3 {
+			lo = 3
+		}
+		for depth := lo; depth <= hi; depth++ {
+			canon, count, _ := repeat(p, "taint", 3*R, optrun.Opts{"unsafe-max-depth": strconv.Itoa(depth)})
+			rep.Case(fmt.Sprintf("taint/%s/unsafe-max-depth=%d", name, depth))
+			rep.Count("analysis/taint+depth-tie")
+			if len(canon) > 1 {
+				rep.Fail(fmt.Sprintf("nondet-taint/%s/unsafe-max-depth=%d", name, depth),
+					fmt.Sprintf("taint of %s with unsafe-max-depth=%d gives %d different results on identical inputs (%v)", name, depth, len(canon), count),
+					[]byte(fmt.Sprintf("option: unsafe-max-depth: %d\nresults: %v\n--- main.go ---\n%s", depth, canon, depthProg(ab[0], ab[1], 0))), false)
 			}
 		}
 	}
